@@ -25,9 +25,17 @@ pub struct Pre {
     /// dial ids owned (and still pending) per request
     pub pending_dials_of_req: Vec<Vec<usize>>,
     pub dial_dropped: Vec<bool>,
+    /// per origin of the configuration: an idle, open, unexpired connection the pool held before the event
+    pub avail: Vec<Option<usize>>,
 }
 
 pub fn capture_pre(sim: &Sim) -> Pre {
+    let mut p = capture_pre_inner(sim);
+    p.avail = (0..sim.cfg.origins.len()).map(|o| sim.available_conn(&sim.snap, o as u8, false)).collect();
+    p
+}
+
+fn capture_pre_inner(sim: &Sim) -> Pre {
     let stages: Vec<String> = sim
         .reqs
         .iter()
@@ -41,6 +49,7 @@ pub fn capture_pre(sim: &Sim) -> Pre {
         conn_open: w.conns.iter().map(|c| c.open).collect(),
         conn_handles: w.conns.iter().map(|c| c.handles).collect(),
         dial_dropped: w.dials.iter().map(|d| d.dropped).collect(),
+        avail: vec![],
         pending_dials_of_req: (0..sim.reqs.len())
             .map(|r| {
                 w.dials
@@ -127,6 +136,17 @@ pub fn check_step(pre: &Pre, e: Ev, rep: &StepReport, sim: &Sim) -> Vec<Viol> {
                         if w.conns[c].open {
                             out.push(v("C04", "h2-dial-despite-connection", format!("HTTP/2 r{r} dialed (d{di}) although open HTTP/2 c{c} for its origin existed when it was issued")));
                         }
+                    }
+                }
+            }
+            // a request starts dialling (first poll of its connector) although the pool holds an idle, open
+            // connection for its origin at that moment: the released connection was not offered to it
+            if let (Actor::Req(r), Ev::Poll(_)) = (d.owner, e) {
+                let rq = &sim.reqs[r as usize];
+                if let Some(Some(c)) = pre.avail.get(rq.origin as usize) {
+                    let cs = &w.conns[*c];
+                    if cs.open && !cs.busy && !rq.is_probe {
+                        out.push(v("C04", "dial-while-idle", format!("r{r} started to dial (d{di}) while idle open c{c} for its origin was sitting in the pool")));
                     }
                 }
             }
